@@ -49,12 +49,12 @@ type vC10Reply struct {
 }
 
 type vC10Sender struct {
-	reply   vC10Reply
-	msgErr  error
-	gotReq  *Message
-	gotMsg  *Message
-	nReq    int
-	nMsg    int
+	reply  vC10Reply
+	msgErr error
+	gotReq *Message
+	gotMsg *Message
+	nReq   int
+	nMsg   int
 }
 
 func (s *vC10Sender) SendRequest(ctx context.Context, p peer.ID, pmes *Message) (*Message, error) {
@@ -649,7 +649,7 @@ var vC10Calls = []string{"PutValue", "GetValue", "GetClosestPeers", "PutProvider
 
 func TestVerif_C10_messenger(t *testing.T) {
 	vh.Run(t, vh.Spec{Prop: "C10", Unit: "messenger", Quick: 1500, Thorough: 75000, CostMs: 30,
-		Rule: "each case: 8 ProtocolMessenger calls (PutValue, GetValue, GetClosestPeers, PutProvider, PutProviderAddrs, GetProviders, Ping; PRNG keys incl. empty) answered by a fake MessageSender with GENERATED replies: message schema with every field optionally absent / mismatched (type incl. unknown enum values, key, record absent / empty / own / other-key / other-value / 50-300 KB, closer and provider lists: none, ordinary, over-budget address lists (200-12000 addresses, 0.5-10 KB addresses), duplicates and empty entries, 300-3000 and 10^4-10^5 entries; ids absent / 1-4 bytes / valid / up to 10 KB; undecodable address bytes of 9 kinds; unknown connection enum values), arbitrary and damaged byte strings, silence/reset errors; every reply passes the wire (marshal, 4 MiB read limit, unmarshal) before the call sees it; replies no remote can produce (nil reply, nil entries) are fed but only observed; non-trivial = a sanitizing clause (other-key, peer-record-bounded with a cut, undecodable dropped) had something to reject/cut in the case; distinct by (call, reply class, outcome) sequence",
+		Rule:    "each case: 8 ProtocolMessenger calls (PutValue, GetValue, GetClosestPeers, PutProvider, PutProviderAddrs, GetProviders, Ping; PRNG keys incl. empty) answered by a fake MessageSender with GENERATED replies: message schema with every field optionally absent / mismatched (type incl. unknown enum values, key, record absent / empty / own / other-key / other-value / 50-300 KB, closer and provider lists: none, ordinary, over-budget address lists (200-12000 addresses, 0.5-10 KB addresses), duplicates and empty entries, 300-3000 and 10^4-10^5 entries; ids absent / 1-4 bytes / valid / up to 10 KB; undecodable address bytes of 9 kinds; unknown connection enum values), arbitrary and damaged byte strings, silence/reset errors; every reply passes the wire (marshal, 4 MiB read limit, unmarshal) before the call sees it; replies no remote can produce (nil reply, nil entries) are fed but only observed; non-trivial = a sanitizing clause (other-key, peer-record-bounded with a cut, undecodable dropped) had something to reject/cut in the case; distinct by (call, reply class, outcome) sequence",
 		Clauses: []string{"no-panic", "returns-error-or-result", "other-key-record-rejected", "peer-record-bounded", "undecodable-absent", "within-budget-kept", "peer-ids-kept", "sender-error-propagates"}},
 		func(c *vh.Case) {
 			r := c.R
